@@ -58,9 +58,11 @@ TRUSTED = ['tools/pyx2v.py for the encoders; hand model of bytes.find / bytes.up
            'Biopython Seq slicing and bytes() agree with bytes']
 ASSUMPTIONS = ['str inputs are ASCII (the code raises otherwise); prefix is non-empty upper-case ACGT (KmerSpec validates it)',
                'the dense accumulator is executed for k <= 11 (k <= 13 in a few all-k cases) in the implementation and k <= 6 in the model',
-               'k is a Python int or a signed NumPy integer scalar; for an UNSIGNED NumPy scalar k (np.uint8(5) ...) '
-               'find_kmers computes -k with wrap-around and the property is false (spurious truncated k-mers) or 4**k '
-               'is a float and the call raises: driven, counted in extra[unsigned_k], not judged (reported boundary)',
+               'k is a Python int or a NumPy integer scalar, signed or unsigned (what h5py hands to KmerSpec when a signature '
+               'file is loaded); with an UNSIGNED NumPy scalar the code as found computed -k with wrap-around in find_kmers '
+               '(spurious truncated k-mers) or 4**k as a float (the call raised): genuine defect, repaired in /repo by a '
+               'fix: commit (KmerSpec: k = int(k), repo_fixes/C14-uint8-k.diff); judged like every other form, counted in '
+               'extra[unsigned_k]',
                'kind big is judged by the Python reference _py_sig of the specification (cross-checked against the '
                'extracted signature_spec on every api case), the Coq model is not run on those inputs']
 
@@ -469,7 +471,7 @@ def k_api(ctx, cases):
 				ctx.violation('api', c, f'call form {name}: signature {str(got[0])[:200]} (item size {got[1]}) but the set of '
 				              f'prefix-anchored k-mers is {spec[:20]} (item size {dts})', impl=got, spec=want, form=name)
 				break
-		# boundary, not judged: unsigned NumPy scalar k (see ASSUMPTIONS)
+		# unsigned NumPy scalar k (see ASSUMPTIONS)
 		nm = UNSIGNED_K[c.get('vseed', 0) % len(UNSIGNED_K)]
 		uk['calls'] += 1
 		try:
@@ -478,8 +480,13 @@ def k_api(ctx, cases):
 				kk = getattr(np, nm)(k)
 				got = _obs(calc_signature(KmerSpec(kk, c['prefix']), [bytes(s) for s in seqs], accumulator=SetAccumulator(k)))
 			uk['agree' if got == want else 'differ'] += 1
-		except Exception:
+			if got != want:
+				ctx.violation('api', c, f'k given as numpy.{nm}({k}): signature {str(got[0])[:200]} (item size {got[1]}) but the set of '
+				              f'prefix-anchored k-mers is {spec[:20]} (item size {dts})', impl=got, spec=want, form='unsigned-k:' + nm)
+		except Exception as e:
 			uk['raised'] += 1
+			ctx.violation('api', c, f'k given as numpy.{nm}({k}): raised {type(e).__name__}: {e} (the signature is {spec[:20]})',
+			              impl=repr(e), spec=spec, form='unsigned-k:' + nm)
 
 
 def _kidx(m):
